@@ -254,6 +254,8 @@ class MixedEdgeGraph:
         self._apply_to_all_graphs("remove_node", n)
 
     def remove_nodes_from(self, nodes):
+        # ``nodes`` is traversed once here and once per edge-type graph: an iterator would be exhausted
+        nodes = list(nodes)
         for n in nodes:
             try:
                 del self._node[n]
@@ -445,6 +447,8 @@ class MixedEdgeGraph:
         Edge attributes specified in an ebunch take precedence over
         attributes specified via keyword arguments.
         """
+        # the bunch is traversed once here and once per edge-type graph: an iterator would be exhausted
+        ebunch_to_add = list(ebunch_to_add)
         for e in ebunch_to_add:
             ne = len(e)
             if ne == 3:
@@ -517,6 +521,8 @@ class MixedEdgeGraph:
         Will fail silently if an edge in ebunch is not in the graph.
         """
         if edge_type == "all":
+            # traversed once per edge-type graph: an iterator would be exhausted after the first one
+            ebunch = list(ebunch)
             self._apply_to_all_graphs("remove_edges_from", ebunch)
         else:
             self._get_internal_graph(edge_type).remove_edges_from(ebunch)
